@@ -145,6 +145,10 @@ type C08Case struct {
 	// Malformed: a deviate substatement has a value its keyword does not admit (config "", min-elements "");
 	// the conversion of the deviating module must report it.
 	Malformed bool `json:"malformed,omitempty"`
+	// Hist: the runner also runs HISTORIES on one Modules value for this case (Process, ParseOptions
+	// changed with or without a load in between, Process again / GetModule) and requires every last
+	// outcome to be what a fresh Modules value gives under the options then in force (c08hist.go).
+	Hist bool `json:"hist,omitempty"`
 }
 
 // Nodes renders the deviation as statements (for deviations placed into a generated (sub)module).
@@ -579,6 +583,7 @@ func C08Exhaustive() []C08Case {
 	out = append(out, c08RevisionCases()...)
 	out = append(out, c08AugmentedCases()...)
 	out = append(out, c08NearMissCases()...)
+	out = append(out, c08HistoryCases()...) // last: the indices of the older cases stay what they were
 	return out
 }
 
